@@ -217,6 +217,8 @@ type World struct {
 	inEpilogue bool
 	failedItems []int
 	tamperCount int
+	creator     *Instance
+	creates     int
 }
 
 type clockState struct {
